@@ -104,7 +104,7 @@ def read_ev(filename):
         elif ll[i].lstrip().startswith("EulerChar:"):
             d.update({"EulerChar": int(ll[i].split(":", 1)[1].strip())})
             i = i + 1
-        elif ll[i].lstrip().startswith("Time(pre)"):
+        elif ll[i].lstrip().startswith(("Time(pre)", "Time(Pre)")):
             d.update({"TimePre": int(ll[i].split(":", 1)[1].strip())})
             i = i + 1
         elif ll[i].lstrip().startswith("Time(calcAB)"):
